@@ -240,8 +240,16 @@ class PeeweeStorage(AbstractStorage):
 
     def insert_one(self, bucket_id: str, event: Event) -> Event:
         e = EventModel.from_event(self.bucket_keys[bucket_id], event)
-        e.save()
-        event.id = e.id
+        if event.id is not None:
+            # Update, but only an event that belongs to this bucket
+            EventModel.update(
+                timestamp=e.timestamp, duration=e.duration, datastr=e.datastr
+            ).where(EventModel.id == event.id).where(
+                EventModel.bucket == self.bucket_keys[bucket_id]
+            ).execute()
+        else:
+            e.save()
+            event.id = e.id
         return event
 
     def insert_many(self, bucket_id, events: List[Event]) -> None:
